@@ -62,16 +62,18 @@ GROUPS = {
     'stack': ['vcell', 'stack'],
     'cont': ['vcell', 'stack', 'vm_struct', 'continuation'],
     'builtins': ['vcell', 'stack', 'vm_struct', 'builtin_mod', 'builtin_vector'],
+    'numbuiltins': ['number', 'vcell', 'stack', 'vm_struct', 'builtin_mod', 'builtin_mod_num', 'builtin_number'],
 }
 
 PROPS = {
-    'C08': {'groups': ['num'], 'search': 'search_num',
+    'C08': {'groups': ['numbuiltins'], 'search': 'search_num',
             'assumptions': [
                 'assumed specifications of num-bigint 0.4.4 / num-rational 0.4.1 / num-traits / core functions listed in trusted_base (written from their sources)',
                 'Ratio<i32> values are in lowest terms with a positive denominator (invariant of every constructor marwood calls)',
                 'f64 arithmetic is uninterpreted: the 2^-50 relative error bound of inexact fallbacks is not decided',
                 'machine integers are NOT treated as mathematical: Verus checks i64/i32/u32 overflow bit-exactly',
                 'results built inside closures passed to Option::map (float arms of quotient / %) are opaque to Verus',
+                'the procedures divide / quotient / remainder / expt (vm/builtin/number.rs) are verified to establish the preconditions of the Number operations they call (non-zero divisor, integer operands); pop_number / pop_integer are verified; Number::is_zero / to_u32 carry assumed contracts (is_zero is checked by Kani harnesses under C09); the modulo procedure is not under contract',
             ]},
     'C03': {'groups': ['heap'], 'search': 'search_heap',
             'kani': [
@@ -113,13 +115,13 @@ PROPS = {
             ]},
     'C14': {'groups': ['builtins'],
             'kani': [
-                {'harness': 'vcell_accessors', 'file': 'src/vm/vcell.rs', 'kind': 'complete', 'what': 'VCell::as_ptr/as_argc/as_car/as_cdr/as_bp/is_pair answer Ok(payload) exactly on the matching variant (their contracts are assumed on the Verus side)'},
+                {'harness': 'vcell_accessors', 'file': 'src/vm/vcell.rs', 'kind': 'complete', 'timeout': 600, 'what': 'VCell::as_ptr/as_argc/as_car/as_cdr/as_bp/is_pair answer Ok(payload) exactly on the matching variant (their contracts are assumed on the Verus side)'},
             ],
             'assumptions': [
                 'scope: the vector procedures vector, vector-length, vector-ref, vector-set!, vector-fill!, vector-copy (start index), vector-copy!; pairs/lists, equal?, and the library procedures written in Scheme are NOT under contract',
                 'stores into the interior-mutable Vector are tracked as events: vector_written(v, i, x) can only be established by Vector::put(i, x); "no other slot is written" (frame) is not expressible and not decided; overlapping vector-copy! on one vector is not decided',
                 'Vector::put carries the precondition index < length, so its silently-ignore branch is proved dead at every call site',
-                'typed poppers pop_argc / pop_index / pop_vector build error text with format! (not ingestible): contracts assumed (what an Ok answer means, and that a well-typed cell yields Ok)',
+                'the typed poppers pop_argc / pop_number / pop_index / pop_vector are verified (not assumed) against Heap::get (assumed: heap_deref), Number::to_usize (assumed) and the Display specs of Cell / Number used in their error text',
                 'Vector::{len,get,put,new,clone_vector}, VCell::vector: assumed specs over the uninterpreted payload view vector_view',
                 'executable rewrite inside verified bodies: `.unwrap_or_else(|| v.len())` -> `.unwrap_or(v.len())` (closure results are opaque to Verus; the argument is a pure length read)',
             ]},
